@@ -32,6 +32,7 @@ EXPLANATION = (
     "bytes_read advances by exactly the returned byte counts."
 )
 NOT_DECIDED = (
+    "(R-13.4 added after seeded changes C12_a/C13_a: returned frames own their arrays) "
     "that complete frames are returned with exactly the written values (parsing "
     "correctness) and each exactly once beyond the position discipline"
 )
@@ -311,12 +312,15 @@ def run(ctx):
     ctx.rule("R-13.1", "every parse of current-line text is dominated by a completeness guard (newline / sentinel) whose failing edge returns without committing", floor=6)
     ctx.rule("R-13.2", "the read position is committed only under the frame-complete condition (or the documented lone-newline resync)", floor=3)
     ctx.rule("R-13.3", "TRR reads while mdrun runs are dominated by fresh size guards; bytes_read advances by the returned counts", floor=3)
+    ctx.rule("R-13.4", "a frame buffer appended to the returned list is re-allocated before it is written again (returned frames do not share storage)", floor=3)
     rs = readers(ctx.tree)
     if len(rs) < 2:
         raise AnalysisError(f"C13: expected 2 text readers passed to ReadAndProcessOnTheFly, found {[r.name for r in rs]}")
+    from .shared import handed_out_buffers
     for f in rs:
-        text_reader(ctx, f)
-    trr_reader(ctx)
+        ctx.attempt(text_reader, ctx, f)
+        ctx.attempt(handed_out_buffers, ctx, "R-13.4", f, "returned frame owns its data")
+    ctx.attempt(trr_reader, ctx)
 
 
 VARIANTS = [
@@ -334,6 +338,10 @@ VARIANTS = [
     B("c13-trr-bytes-not-advanced", GROMACS, "                                    self.bytes_read += new_bytes\n                                    yield data", "                                    yield data", "R-13.3"),
     B("c13-trr-stale-size", GROMACS, "                            size = os.path.getsize(self.trr_file)\n                            if size >= self.bytes_read + self.data_size:", "                            if size >= self.bytes_read + self.data_size:", "R-13.3"),
     B("c13-trr-data-size-from-constant", GROMACS, "                        self.data_size = sum(\n                            header[key] for key in TRR_DATA_ITEMS\n                        )", "                        self.data_size = 1", "R-13.3"),
+    B("c13-lammps-shared-box-buffer", ENGPARTS, "            coordinate_snapshot = np.zeros((N_atoms, 6), dtype=np.float64)\n            box_snapshot = np.zeros((3, 3), dtype=np.float64)\n    return trajectory, box", "            coordinate_snapshot = np.zeros((N_atoms, 6), dtype=np.float64)\n    return trajectory, box", "R-13.4", control=True, why="seeded C12_a"),
+    B("c13-lammps-shared-buffers", ENGPARTS, "            coordinate_snapshot = np.zeros((N_atoms, 6), dtype=np.float64)\n            box_snapshot = np.zeros((3, 3), dtype=np.float64)\n    return trajectory, box", "    return trajectory, box", "R-13.4", why="seeded C13_a"),
+    B("c13-xyz-shared-list", ENGPARTS, "            trajectory.append(np.array(frame_coordinates, dtype=np.float64))", "            trajectory.append(frame_coordinates)", "R-13.4", also=[(ENGPARTS, "            frame_coordinates = []\n\n    return trajectory", "            frame_coordinates.clear()\n\n    return trajectory")]),
+    K("c13-keep-lammps-alloc-copy", ENGPARTS, "            trajectory.append(coordinate_snapshot)\n            box.append(box_snapshot)", "            trajectory.append(coordinate_snapshot.copy())\n            box.append(box_snapshot.copy())"),
     K("c13-keep-xyz-endswith", ENGPARTS, 'if len(spl) != 4 or line[-1] != "\\n":', 'if len(spl) != 4 or not line.endswith("\\n"):'),
     K("c13-keep-lammps-sentinel-swapped", ENGPARTS, "spl[0] != spl[-1]", "spl[-1] != spl[0]"),
     K("c13-keep-trr-sum-commuted", GROMACS, "if size >= self.bytes_read + header_size:", "if size >= header_size + self.bytes_read:"),
